@@ -1737,9 +1737,19 @@ func genMulti(r *rand.Rand, id string) *Case {
 	// overlapping; (2) connection 0 leaves a failed extended-query batch open (no Sync yet) while
 	// the others run complete cycles; (3) parameters of an array type decoded concurrently (the
 	// codec memoizes its plan in the type map: a shared map shows up under the race detector)
-	variant := r.Intn(7)
+	variant := r.Intn(8)
 	if variant == 1 {
 		c.Auth = true
+	}
+	if variant == 7 {
+		// connection 0 is a CancelRequest (ends at once, nothing is served); the connections that follow
+		// are open at the same time and must not be affected by it
+		c.Extra["sched"] = "seq"
+		c.Extra["early"] = "1"
+		if k < 3 {
+			k = 3
+			c.Extra["conns"] = "3"
+		}
 	}
 	if variant == 4 {
 		// connection 0 runs to its end and is closed before the others start: what its callbacks
@@ -1750,6 +1760,12 @@ func genMulti(r *rand.Rand, id string) *Case {
 	for i := 0; i < k; i++ {
 		in := startup(196608, [][2]string{{"user", users[i]}, {"database", "db" + strconv.Itoa(i)}}, true)
 		pc := -1
+		if variant == 7 && i == 0 {
+			in = append(be32(16), append(be32(80877102), randBytes(r, 8, false)...)...)
+			ins = append(ins, hex.EncodeToString(in))
+			pcs = append(pcs, strconv.Itoa(1<<30))
+			continue
+		}
 		if c.Auth {
 			if r.Intn(3) != 0 {
 				pc = len(in) // phase 1 ends between the startup packet and the password message
